@@ -1,7 +1,9 @@
 import re
 
 def _pat(case):
-    return case.lstrip().startswith("PAT")
+    # the harness announces every Patricia case as "PENDING PAT | ..." before running it
+    head = case.split("|")[0].split()
+    return head[:1] == ["PAT"] or head[:2] == ["PENDING", "PAT"]
 
 def _mm_op(m):
     # "PAT WP 61: implementation ..."
